@@ -33,6 +33,8 @@ properties! {
     "C03" => c03,
     "C04" => c04,
     "C06" => c06,
+    "C07" => c07,
+    "C08" => c08,
     "C10" => c10,
     "C14" => c14,
     "C18" => c18,
